@@ -45,7 +45,8 @@ ASSUMPTIONS = [
     "with typing.get_origin on the running interpreter)",
     "the semantic oracle applies to the generated annotation strings that evaluate on this interpreter (3.12); unions are compared "
     "flattened, up to duplicate members and up to the order of union / Literal members, as typing evaluates and caches them "
-    "(typing's subscription cache is keyed by an order-insensitive ==); the Lean theorem keeps the order",
+    "(typing's subscription cache is keyed by an order-insensitive ==); the order of members is compared by a second, symbolic "
+    "evaluation of both strings (every name bound to a symbolic type; typing.X identified with its builtin by the typingAlias rows)",
 ]
 TRUSTED = ["harness/props/c20.py (tree encoder, generators, structural comparison of evaluated types)",
            "lean/TypelibModel/Drv/Future.lean (driver glue)",
@@ -386,6 +387,73 @@ def struct(t):
     return ("app", _name(origin), tuple(struct(a) for a in typing.get_args(t)))
 
 
+# ------------------------------------------------------------------------------------------------ symbolic evaluation
+class Sym:
+    """A symbolic type: evaluating an annotation string with every name bound to a Sym gives its exact structure
+    (origins, arguments, order of union members) without typing's caches and for names that do not exist."""
+
+    __slots__ = ("st",)
+    UNION = (("typing", "Union"), ("Union",))
+
+    def __init__(self, st):
+        self.st = st
+
+    def __getattr__(self, a):
+        if a.startswith("__"):
+            raise AttributeError(a)
+        if self.st[0] == "atom":
+            return Sym(("atom", _canon_path(self.st[2] + (a,)), self.st[2] + (a,)))
+        return Sym(("attr", sym_struct(self), a))
+
+    def __getitem__(self, item):
+        args = item if isinstance(item, tuple) else (item,)
+        if self.st[0] == "atom" and self.st[2] in Sym.UNION:
+            return Sym(("union", tuple(m for a in args for m in _members(sym_struct(a)))))
+        return Sym(("app", self.st[:2], tuple(sym_struct(a) for a in args)))
+
+    def __or__(self, other):
+        return Sym(("union", _members(sym_struct(self)) + _members(sym_struct(other))))
+
+    def __ror__(self, other):
+        return Sym(("union", _members(sym_struct(other)) + _members(sym_struct(self))))
+
+
+ALIAS_PATHS = {tuple(v.split(".")): (k,) for k, v in TYPING_ALIAS}
+
+
+def _canon_path(path):
+    return ALIAS_PATHS.get(path, path)
+
+
+def _members(st):
+    return st[1] if st[0] == "union" else (st,)
+
+
+def sym_struct(x):
+    if isinstance(x, Sym):
+        return x.st[:2] if x.st[0] == "atom" else x.st
+    if x is None:
+        return ("none",)
+    if x is Ellipsis:
+        return ("...",)
+    if isinstance(x, str):
+        return ("fwd", x)
+    if isinstance(x, list):
+        return ("list", tuple(sym_struct(e) for e in x))
+    if isinstance(x, tuple):
+        return ("tuple", tuple(sym_struct(e) for e in x))
+    return ("const", repr(x))
+
+
+class SymNS(dict):
+    def __missing__(self, name):
+        return Sym(("atom", _canon_path((name,)), (name,)))
+
+
+def sym_eval(s):
+    return sym_struct(eval(s, {"__builtins__": {}}, SymNS()))  # noqa: S307
+
+
 def has_pipe(tree):
     return any(isinstance(n, ast.BinOp) and isinstance(n.op, ast.BitOr) for n in ast.walk(tree))
 
@@ -451,6 +519,21 @@ def real_case(future, ns, s, stream, keys):
                 if a != b:
                     fails.append({"what": "the output evaluates to a type of another structure", "out": t,
                                   "struct_in": repr(a)[:600], "struct_out": repr(b)[:600]})
+        # (1') the same, symbolically: exact order of members, no interpreter cache, names need not exist
+        try:
+            a = sym_eval(s)
+        except TypeError:                      # None | None, 'A' | 'B': no operand implements `|`
+            rec["sym"] = "skipped:TypeError"
+        else:
+            try:
+                b = sym_eval(t)
+            except Exception as e:  # noqa: BLE001
+                fails.append({"what": f"symbolic evaluation of the output raises {type(e).__name__}: {e}", "out": t})
+            else:
+                rec["sym"] = "ok"
+                if a != b:
+                    fails.append({"what": "the output denotes another structure (symbolic evaluation, order of members kept)",
+                                  "out": t, "struct_in": repr(a)[:600], "struct_out": repr(b)[:600]})
     return rec, fails, tree_in, tree_out
 
 
@@ -490,6 +573,8 @@ def explore(ctx):
         res.count(f"stream:{stream}")
         if "eval" in rec:
             res.count("oracle:eval-" + rec["eval"])
+        if "sym" in rec:
+            res.count("oracle:symbolic-" + rec["sym"])
         for f in fails:
             res.failures.append({"input": {"s": s, "stream": stream}, **f})
         if not fails:
